@@ -90,6 +90,8 @@ def gen(ctx):
             if occ == 'RaggedArray':
                 foreign.append(dict(kind='file', name='notes.txt', where='values'))
             C.append(dict(func=func, occupant=occ, overwrite=True, foreign=foreign, aspath=False, fails=True))
+    for i, c in enumerate(C):
+        c['owtype'] = ('bool', 'npbool', 'bool', 'int')[i % 4]
     return D, C
 
 
